@@ -1856,27 +1856,32 @@ def evaluate__round(self: XPathFunction, context: ta.ContextType = None) \
         number = decimal.Decimal(arg)
         if precision < 0:
             exponent = decimal.Decimal(1).scaleb(-precision)
+        elif precision >= -cast(int, number.as_tuple().exponent):
+            return arg  # there are no fractional digits beyond the requested precision
         else:
-            exponent = decimal.Decimal('1') / 10 ** precision
+            exponent = decimal.Decimal(1).scaleb(-precision)
 
+        # Use a context with enough precision for the digits of the result,
+        # that are not limited to the default precision of 28 digits.
+        ctx = decimal.Context(prec=max(28, number.adjusted() + abs(precision) + 4))
         if number > 0:
-            number = number.quantize(exponent, rounding='ROUND_HALF_UP')
+            number = number.quantize(exponent, rounding='ROUND_HALF_UP', context=ctx)
         else:
-            number = number.quantize(exponent, rounding='ROUND_HALF_DOWN')
+            number = number.quantize(exponent, rounding='ROUND_HALF_DOWN', context=ctx)
 
         if precision < 0:
-            number = number.quantize(decimal.Decimal(1))
+            number = number.quantize(decimal.Decimal(1), context=ctx)
         return type(arg)(number)
     except TypeError as err:
         if isinstance(context, XPathSchemaContext):
             return []
         raise self.error('FORG0006', err) from None
-    except decimal.InvalidOperation:
-        if isinstance(arg, str):
-            if isinstance(context, XPathSchemaContext):
-                return []
+    except decimal.InvalidOperation as err:
+        if isinstance(context, XPathSchemaContext):
+            return []
+        elif isinstance(arg, str):
             raise self.error('XPTY0004') from None
-        return round(arg)
+        raise self.error('FOCA0002', err) from None
     except decimal.DecimalException as err:
         if isinstance(context, XPathSchemaContext):
             return []
